@@ -17,6 +17,8 @@ func init() {
 		seed := fs.Int64("seed", 1, "seed")
 		n := fs.Int("n", 40, "histories")
 		hist := fs.String("hist", "", "ndjson output")
+		stress := fs.Bool("stress", true, "also run the overwrite and first-use stresses")
+		rounds := fs.Int("rounds", 20000, "first-use rounds")
 		out := fs.String("out", "-", "report")
 		fs.Parse(args)
 		f, err := os.Create(*hist)
@@ -40,6 +42,10 @@ func init() {
 			if len(samples) < 2 && i%13 == 1 {
 				samples = append(samples, h)
 			}
+		}
+		if *stress {
+			problems = append(problems, conc.OverwriteStress(*seed, 400*time.Millisecond)...)
+			problems = append(problems, conc.FirstUseStress(*seed, *rounds)...)
 		}
 		if problems == nil {
 			problems = []conc.Problem{}
